@@ -110,6 +110,18 @@ Theorem C12_dimensions : forall dims ds,
 Proof. exact wild_dimensions_spec. Qed.
 Print Assumptions C12_dimensions.
 
+(* a GROUP BY regular expression stands for exactly the tags it matches, in the sorted order of the tag list, each once
+   - whatever the regex spells out, in whatever order and however often (it is matched against the sorted tags; its own
+   text is never a source of names) *)
+Theorem C12_regex_dimension : forall orc dims ds p,
+  let tags := wild_dimensions true dims ds in
+  let out := filter (fun n => o_re_match orc p n) tags in
+  expand_dims orc tags [RegexLit p] = map (fun n => VarRef n DUnknown) out /\
+  StronglySorted (@le text text_ltb) out /\
+  (forall x, In x out <-> In x ds /\ o_re_match orc p x = true).
+Proof. exact regex_dimension_spec. Qed.
+Print Assumptions C12_regex_dimension.
+
 (* an untyped reference receives its schema type *)
 Theorem C12_untyped_reference : forall orc mt m v, retype orc mt [SMeasurement m] (VarRef v DUnknown) = VarRef v (mt m v).
 Proof. exact retype_untyped_measurement. Qed.
